@@ -572,9 +572,11 @@ impl Parser {
             if let Some(_old) = lookup.insert(field.name.clone(), position) {
                 return Err(Details::FieldNameDuplicate(field.name.clone()).into());
             }
-
+        }
+        // An alias never hides the field that really has that name
+        for (position, field) in fields.iter().enumerate() {
             for alias in &field.aliases {
-                lookup.insert(alias.clone(), position);
+                lookup.entry(alias.clone()).or_insert(position);
             }
         }
 
